@@ -168,6 +168,12 @@ fn object_positions(c: &mut Ctx, n_mix: usize) -> Vec<Pos> {
         "4k3/8/8/8/8/8/8/4K2R w K - 0 1",
         "r3k3/8/8/8/8/8/8/R3K3 b Qq - 0 1",
         "r3k2r/8/8/8/8/8/8/R3K2R w KQkq - 0 1",
+        "4k3/8/8/8/8/8/q7/R3K3 w Q - 0 1",
+        "4k3/8/8/8/8/8/7q/4K2R w K - 0 1",
+        "r3k3/Q7/8/8/8/8/8/4K3 b q - 0 1",
+        "4k2r/7Q/8/8/8/8/8/4K3 b k - 0 1",
+        "4k3/8/8/8/8/8/r6r/R3K2R w KQ - 0 1",
+        "r3k2r/R6R/8/8/8/8/8/4K3 b kq - 0 1",
     ] {
         if let Ok(b) = owlchess::Board::from_fen(fen) {
             ps.push(Pos { sent: *b.raw(), board: b, fam: "objects" });
@@ -228,6 +234,10 @@ fn object_cases(c: &mut Ctx, p: &Pos, stream: &str, line: &str, k_restored: usiz
     c.rng.shuffle(&mut special[tail..]);
     let legal = true_legal_moves(&p.board);
     c.case(&format!("restored {}", stream), &format!("restored 0.0.0.0 {}", line));
+    // the null move made and KEPT (search code passes the turn like this): side flipped, en-passant mark gone
+    if !p.board.is_check() {
+        c.case(&format!("via {}", stream), &format!("via n {}", line));
+    }
     let mut quiet: Vec<Move> = sm.iter().copied().filter(|m| !posgen::is_interesting(&p.board, m)).collect();
     c.rng.shuffle(&mut quiet);
     for m in special.iter().take(k_restored).chain(quiet.iter().take(1)) {
@@ -248,6 +258,8 @@ fn object_cases(c: &mut Ctx, p: &Pos, stream: &str, line: &str, k_restored: usiz
         if let Some(nb) = posgen::safe_make(&p.board, *m1) {
             let mut replies = true_legal_moves(&nb);
             c.rng.shuffle(&mut replies);
+            // replies into a corner first (a rook's vacated home square is where a castling slip shows)
+            replies.sort_by_key(|m| ![0usize, 7, 56, 63].contains(&m.dst().index()));
             for m2 in replies.iter().take(2) {
                 if n >= 2 * k_reached {
                     break;
@@ -633,6 +645,7 @@ fn c07(c: &mut Ctx) {
     // legal-move test of `has_legal_moves` is most delicate
     ps.extend(posgen::f3a(c.thorough));
     ps.extend(posgen::f3c().0);
+    ps.extend(posgen::f3_allpinned());
     let singles = posgen::f3i(&mut c.rng, if c.thorough { 60 } else { 12 }, if c.thorough { 3_000_000 } else { 400_000 });
     for p in &singles {
         let ms = true_legal_moves(&p.board);
@@ -695,7 +708,20 @@ fn c08(c: &mut Ctx) {
         }
     }
     let m = c.vol(10000, 50.0);
-    let specials = strgen::fen_specials();
+    let mut specials = strgen::fen_specials();
+    specials.extend(strgen::fen_ep_sweep());
+    // crowded boards: the longest placement texts; parsed, and whatever parses is formatted again
+    let crowded = strgen::crowded_placements(&mut c.rng, if c.thorough { 2000 } else { 150 });
+    for s in &crowded {
+        if let Ok(r) = RawBoard::from_str(s) {
+            c.case("fenformat", &format!("fenformat {}", raw_fmt(&r)));
+            if let Some(p) = posgen::pos_of(r, "crowded") {
+                c.pos(&p);
+                c.case("restored fenformat", &format!("restored 0.0.0.0 fenformat {}", raw_fmt(p.board.raw())));
+            }
+        }
+    }
+    specials.extend(crowded);
     let mut strs: Vec<String> = specials.clone();
     while strs.len() < m {
         let base = if c.rng.chance(1, 4) {
@@ -713,6 +739,14 @@ fn c08(c: &mut Ctx) {
         c.str_case("fenparse", "fenparse ", s, "");
         if i % 3 == 0 || i < specials.len() {
             c.str_case("fenboard", "fenboard ", s, "");
+        }
+    }
+    // a null move made right after a double step: the mark must be gone from the board and from its FEN
+    for p in posgen::f3a(false).iter().step_by(5).chain(posgen::f3_wrap().iter()) {
+        if !p.board.is_check() {
+            c.pos(p);
+            c.case("via fenformat", &format!("via n fenformat {}", raw_fmt(p.board.raw())));
+            c.case("via fenformat", &format!("via n,n fenformat {}", raw_fmt(p.board.raw())));
         }
     }
     // the FEN of board objects that a make / unmake has touched (`Board::as_fen`, and that it parses back to an equal board)
@@ -1096,7 +1130,9 @@ fn valid_strings(c: &mut Ctx, n_pos: usize) -> Vec<String> {
 fn c12(c: &mut Ctx) {
     let valid = valid_strings(c, 150);
     let nm = c.vol(6000, 25.0);
-    let pool = strgen::f5_pool(&mut c.rng, &valid, nm);
+    let mut pool = strgen::f5_pool(&mut c.rng, &valid, nm);
+    pool.extend(strgen::fen_ep_sweep());
+    pool.extend(strgen::crowded_placements(&mut c.rng, 40));
     for s in &pool {
         c.str_case("fenparse", "fenparse ", s, "");
         c.str_case("fenboard", "fenboard ", s, "");
@@ -1283,6 +1319,13 @@ fn c16(c: &mut Ctx) {
         let raw = p.raw_text();
         c.case("attackers", &format!("attackers {}", raw));
         c.case("check", &format!("check {}", raw));
+    }
+    // ... and under the object prefixes (two plies, an un-made special move followed by another move, the null move)
+    for p in object_positions(c, 40) {
+        c.pos(&p);
+        let raw = p.raw_text();
+        object_cases(c, &p, "attackers", &format!("attackers {}", raw), 4, 4);
+        object_cases(c, &p, "check", &format!("check {}", raw), 4, 4);
     }
     // the same queries asked of the board object a move produced, and of that object after the move was taken back
     // (captures, promotions, castlings, en passant, double steps; a few quiet moves; illegal semilegal moves: undo only)
